@@ -1,7 +1,7 @@
 """C14 - every Ping is answered by exactly one matching Pong, in order."""
 from hypothesis import strategies as st
 
-from harness import build, gen, simnet, wire, httpref
+from harness import build, gen, simnet, wire, httpref, deflateref
 from harness.runner import Prop, Enumeration, held, failed
 from props.c01 import effective_seg, compare_events
 
@@ -84,7 +84,7 @@ class C14(Prop):
     id = "C14"
     level = "exploration"
     rule = ("conforming streams dense in Pings (payload 0..125 bytes, several per read, between the fragments of data "
-            "messages) x auto_pong on/off x application reactions (sends and own send_pong at Ping and other events, close() at a "
+            "messages, also of messages the peer sent compressed under a negotiated permessage-deflate configuration) x auto_pong on/off x application reactions (sends and own send_pong at Ping and other events, close() at a "
             "drawn message) x optional failure of one pong write (timeout / I/O error / arbitrary exception from sendall) x read "
             "segmentation. Oracle = invariant over the ordered wire log: library-written Pongs carry exactly the payloads of the "
             "Ping events that precede the client's Close, in order, each written after the previous event was yielded and before "
@@ -111,7 +111,11 @@ class C14(Prop):
             "close_at": st.one_of(st.none(), st.integers(0, 8)),
             "fault": st.one_of(st.none(), st.tuples(st.integers(0, 5), st.sampled_from(["timeout", "oserror", "exc"])).map(list)),
             "seg": gen.segmentation(),
-            "deflate": st.booleans(),      # permessage-deflate negotiated (Pongs must still go out uncompressed)
+            # permessage-deflate negotiated (any parameters); the data messages selected by cmask are sent
+            # compressed by the peer, so Pings also arrive between the fragments of compressed messages
+            # (Pongs must still go out uncompressed, with the Ping's payload)
+            "deflate": gen.deflate_opt(),
+            "cmask": st.integers(0, 255),
         })
 
     def enumerations(self, tier):
@@ -137,7 +141,14 @@ class C14(Prop):
         return [Enumeration("pong_before_reaction_all_single_preemptions", cases, exhaustive=True)]
 
     def scenario(self, case, fault_ordinal=None):
-        built = build.build_session(case["msgs"])
+        msgs, deflater = case["msgs"], None
+        if case.get("deflate"):
+            peer = deflateref.peer_of(case["deflate"])
+            mask = case.get("cmask", 0)
+            msgs = [dict(m, compress=True) if m["kind"] in ("text", "binary") and (mask >> (i % 8)) & 1 else m
+                    for i, m in enumerate(msgs)]
+            deflater = lambda payload, msg: peer.compress(payload)     # noqa: E731
+        built = build.build_session(msgs, deflater)
         reply_len = len(httpref.build_reply(None, b""))
         seg = effective_seg(case["seg"], reply_len + len(built.data))
         reactions = list(case["sends"])
@@ -146,7 +157,7 @@ class C14(Prop):
         att = {}
         if fault_ordinal is not None:
             att["faults"] = {"send": {str(fault_ordinal): case["fault"][1]}}
-        reply = httpref.canonical_spec(extensions=["permessage-deflate"]) if case.get("deflate") else None
+        reply = httpref.canonical_spec(extensions=[deflateref.header_of(case["deflate"])]) if case.get("deflate") else None
         scn = build.scenario(
             [["wait_request"], ["stream", [["reply", reply], ["bytes", bytes(built.data)]], seg, 0.0], ["eof", 1.0]],
             connect_opts={"auto_pong": case["auto_pong"], "ping_rate": 0, "close_timeout": None},
